@@ -238,9 +238,25 @@ LoopBoxes:
 	return f, nil
 }
 
-// Size - total size of all boxes
+// Size - total size of all boxes that Encode writes.
+// For a fragmented file in EncModeSegment that is Init, Sidxs, Segments, and Mfra.
 func (f *File) Size() uint64 {
 	var totSize uint64 = 0
+	if f.isFragmented && f.FragEncMode == EncModeSegment {
+		if f.Init != nil {
+			totSize += f.Init.Size()
+		}
+		for _, sidx := range f.Sidxs {
+			totSize += sidx.Size()
+		}
+		for _, seg := range f.Segments {
+			totSize += seg.Size()
+		}
+		if f.Mfra != nil {
+			totSize += f.Mfra.Size()
+		}
+		return totSize
+	}
 	for _, f := range f.Children {
 		totSize += f.Size()
 	}
